@@ -97,8 +97,31 @@ for (s_, o_, tiers_) in [('1.0', '0.0', ('quick', 'thorough')), ('0.5', '(3*(S_I
                      enforce=['SampledDimension_indexOf_pair'], replace=[], defines=['S_INT=' + s_, 'S_OFF=' + o_], tiers=tiers_,
                      covers=['COVER-pair-has', 'COVER-pair-none', 'COVER-exclusive-at-first-sample'], expect_kinds=['postcondition'], timeout=1200))
 
+LST = r'std::vector<boost::optional<std::pair<ndsize_t,\s*ndsize_t>>>\s+'
+def lst(cls, nargs, extra=None):
+    d = dict(file=F, locator=LST + cls + r'::indexOf\s*\((?=\s*const\s+std::vector<double>\s*&\s*start_positions)', cls=cls + 'V', cls_decl=cls, cls_file='include/nix/Dimensions.hpp', classes=[cls + 'V'],
+             member_calls={'indexOf': cls + 'V_indexOf_pair%d' % nargs}, bounded_twin=True, ret_default='(vec_opt_pair){0}',
+             loops={0: '__CPROVER_assigns(i, gh_cv_calls, gh_cv_pushes, gh_cv_seen_start, gh_cv_seen_end, indices.n)\n'
+                       '__CPROVER_loop_invariant(i <= start_positions->n && gh_cv_calls == i && gh_cv_pushes == i && indices.n == i && '
+                       '(ghost_k < i ==> (SAME_DV(gh_cv_seen_start, start_positions->data[ghost_k]) && SAME_DV(gh_cv_seen_end, end_positions->data[ghost_k]))))\n'
+                       '__CPROVER_decreases(start_positions->n - i)'})
+    if extra: d.update(extra)
+    return d
+def ticks_value(ctx, toks):
+    """vector<double> ticks = this->ticks();  (all ticks, handed to the pair conversion as a whole)  is the value type vec_double_t here"""
+    for k, t in enumerate(toks):
+        if t.t == 'vec_double' and toks[k + 1].t == 'ticks': t.t = 'vec_double_t'; ctx.env['ticks'] = ('vec_double_t', False)
+    return toks
+LUNITS = {'SampledDimensionV_indexOf_list': lst('SampledDimension', 5), 'SetDimensionV_indexOf_list': lst('SetDimension', 4),
+          'RangeDimensionV_indexOf_list': lst('RangeDimension', 4, dict(pre_rules=[ticks_value])), 'DataFrameDimensionV_indexOf_list': lst('DataFrameDimension', 4)}
+UNITS.update(LUNITS)
+LX = 'size_t gh_cv_calls, gh_cv_pushes; RangeMatch gh_cv_match; double gh_cv_seen_start, gh_cv_seen_end;\n'
+for fn in LUNITS:
+    JOBS.append(dict(name=fn, bodies=[fn], enforce=[fn], replace=[], includes=['c07_vec.h'], extra_c=LX, loop_contracts=True, expect_kinds=['postcondition', 'loop_invariant_base', 'loop_invariant_step'], timeout=600))
+    JOBS.append(dict(name=fn + '[bounded]', bodies=[fn], enforce=[fn], replace=[], includes=['c07_vec.h'], extra_c=LX, loop_contracts=False, defines=['NIX_NO_LOOP_CONTRACTS', 'C07V_BOUNDED=3'],
+                     cbmc_flags=['--unwind', '5', '--unwinding-assertions'], expect_kinds=['postcondition', 'unwind'], timeout=600, bounded='lists of at most 3 pairs, loop unwound completely (twin without loop contract)'))
 SPEC = dict(
-    contracts=['c07_leaf.h', 'c07_pair.h'],
+    contracts=['c07_leaf.h', 'c07_pair.h', 'c07_vec.h'],
     stubs=['std_algo.h'],
     units=UNITS,
     jobs=JOBS,
